@@ -148,6 +148,35 @@ func (x *Exec) ghostSet(st *State, name string, v *Term) {
 	st.h[x.gobj] = n
 }
 
+// ghostField2 / ghostGet2 / ghostSet2: ghost fields of the package under
+// verification (packages other than z80 have their own VGhost).
+func (ld *Loaded) ghostField2(x *Exec, name string) (int, bool) {
+	if x.gobj == nil || x.gobj.T == nil {
+		return 0, false
+	}
+	st, ok := x.gobj.T.Underlying().(*types.Struct)
+	if !ok {
+		return 0, false
+	}
+	for i := 0; i < st.NumFields(); i++ {
+		if st.Field(i).Name() == name {
+			return i, true
+		}
+	}
+	return 0, false
+}
+func (x *Exec) ghostGet2(st *State, name string) *Term {
+	i, _ := x.ld.ghostField2(x, name)
+	return st.h[x.gobj].(*StructV).F[i].(*Term)
+}
+func (x *Exec) ghostSet2(st *State, name string, v *Term) {
+	i, _ := x.ld.ghostField2(x, name)
+	g := st.h[x.gobj].(*StructV)
+	n := &StructV{F: append([]Value{}, g.F...)}
+	n.F[i] = v
+	st.h[x.gobj] = n
+}
+
 func (x *Exec) bump(arr, idx *Term) *Term {
 	b := x.b
 	return b.Store(arr, idx, b.Bin("bvadd", b.Select(arr, idx), b.Const(arr.S.E.W, 1)))
@@ -239,6 +268,26 @@ func (x *Exec) invoke(recv *IfaceV, m *types.Func, args []Value, st *State, pc *
 		case "RETIHandle":
 			x.ghostSet(st, "Reti", x.b.Bin("bvadd", x.ghostGet(st, "Reti"), x.b.Const(8, 1)))
 			return nil
+		}
+	}
+	if name == "Write" && len(args) == 1 && x.gobj != nil {
+		if _, ok := x.ld.ghostField2(x, "Con"); ok {
+			// io.Writer contract (assumed): Write(p) appends all of p to the stream
+			x.usedStub("io.Writer.Write (appends all of p; assumed)")
+			p := args[0].(*SliceV)
+			if !isC(p.Len) || p.Len.Val > 16 {
+				unsupported("console write of symbolic length")
+			}
+			arr := x.readArr(st, p.Obj, p.Path)
+			con, n := x.ghostGet2(st, "Con"), x.ghostGet2(st, "ConN")
+			for k := uint64(0); k < p.Len.Val; k++ {
+				v := x.sel(arr, x.adaptIdx(arr, x.b.Bin("bvadd", p.Off, x.b.Const(64, k))))
+				con = x.b.Ite(pc, x.b.Store(con, n, v), con)
+				n = x.b.Ite(pc, x.b.Bin("bvadd", n, x.b.Const(n.S.W, 1)), n)
+			}
+			x.ghostSet2(st, "Con", con)
+			x.ghostSet2(st, "ConN", n)
+			return &TupleV{E: []Value{p.Len, &IfaceV{Nil: x.b.Fresh("write_err_isnil", BoolS()), Opaque: "write.err", T: nil}}}
 		}
 	}
 	if x.invokeHook != nil {
@@ -429,10 +478,17 @@ func (x *Exec) stub(callee *ssa.Function, args []Value, st *State, pc *Term) (Va
 	case "log.Printf", "(*log.Logger).Printf", "log.(*Logger).Printf", "log.Println", "log.Print":
 		x.usedStub(fn)
 		x.logCalls++
+		x.countWarn(st, pc)
 		return nil, true
 	}
 	if callee.Pkg != nil && !strings.HasPrefix(callee.Pkg.Pkg.Path(), modPath) && callee.Name() == "init" && callee.Synthetic != "" {
 		return nil, true // initialisers of dependencies: not modelled
+	}
+	if callee.Pkg != nil && callee.Name() == "init" && callee.Synthetic != "" && x.inInit {
+		// a package of the module imported by the one being initialised
+		x.initPackage(callee.Pkg, st)
+		x.inInit = true
+		return nil, true
 	}
 	if fn == "errors.New" {
 		x.usedStub(fn)
@@ -445,6 +501,7 @@ func (x *Exec) stub(callee *ssa.Function, args []Value, st *State, pc *Term) (Va
 	if callee.Pkg != nil && callee.Pkg.Pkg.Path() == "log" {
 		x.usedStub("log.*")
 		x.logCalls++
+		x.countWarn(st, pc)
 		if callee.Signature.Results().Len() == 0 {
 			return nil, true
 		}
@@ -541,3 +598,11 @@ func (x *Exec) usedStub(name string) {
 }
 
 var _ = fmt.Sprintf
+
+// countWarn: a ghost record with a Warns field counts logger calls.
+func (x *Exec) countWarn(st *State, pc *Term) {
+	if _, ok := x.ld.ghostField2(x, "Warns"); ok && x.inSpec == 0 {
+		n := x.ghostGet2(st, "Warns")
+		x.ghostSet2(st, "Warns", x.b.Bin("bvadd", n, x.b.Ite(pc, x.b.Const(n.S.W, 1), x.b.Const(n.S.W, 0))))
+	}
+}
